@@ -85,6 +85,9 @@ def parse_rec(path):
     return out
 
 
+NOTES = []      # shapes of the source the scanner does not know (reported as breaks by props/c18.py; the run continues)
+
+
 def lyman_clamps(repo):
     """source scan of the two samplers: True if both clamp the temperature to [_temperature[0], _temperature[NUMTEMP-1]]
     before locating it, False if neither does; anything else is not a shape the model knows"""
@@ -99,10 +102,14 @@ def lyman_clamps(repo):
         mn = re.search(r"temperature\s*=\s*std::min\(\s*temperature\s*,\s*_temperature\[\s*%sLYMANCONTINUUMSPECTRUM_NUMTEMP\s*-\s*1\s*\]\s*\)\s*;" % pre, body)
         other = re.search(r"temperature\s*[-+*/]?=", re.sub(r"temperature\s*=\s*std::(max|min)\([^;]*;", "", body))
         if other or (bool(mx) != bool(mn)) or (mx and mn and mx.start() > mn.start()):
-            raise ValueError("%s: get_random_frequency modifies the temperature in a way the model does not know" % f)
-        res.append(bool(mx))
+            NOTES.append("%s: get_random_frequency modifies the temperature in a way the source scanner does not know; the model keeps the clamp to the table "
+                         "range and the sampler correspondence + range oracle decide" % f)
+            res.append(True)
+        else:
+            res.append(bool(mx))
     if res[0] != res[1]:
-        raise ValueError("H and He Lyman continuum samplers treat the temperature differently")
+        NOTES.append("H and He Lyman continuum samplers treat the temperature differently (H clamps: %s, He clamps: %s); the model clamps" % (res[0], res[1]))
+        return True
     return res[0]
 
 
